@@ -378,19 +378,51 @@ func Gen(o *GenOpts, d *idl.Def, black bool) *Mask {
 // Render writes the trie as path strings (one per complete node; sibling leaves of a list or map
 // are sometimes grouped as [1,3] / {"a","b"}; fields are addressed by name or by id).
 func Render(rng *vlib.Rng, root *Node, t *idl.Type) []string {
-	var out []string
-	var walk func(n *Node, t *idl.Type, prefix string)
-	walk = func(n *Node, t *idl.Type, prefix string) {
-		if n.Complete && !n.HasChild() {
-			out = append(out, prefix)
-			return
+	// keyed renders the children of a list / set / map node: leaves may be grouped ([1,3]), and tails shared by
+	// several children may be written once behind a key set ([1,2].a next to [1].b)
+	var walk func(n *Node, t *idl.Type, prefix string) []string
+	keyed := func(n *Node, elem *idl.Type, prefix, open, close string, lit func(string) string) []string {
+		var out, leaves []string
+		tails := map[string][]string{} // tail -> keys (in order)
+		var tailOrder []string
+		for _, k := range n.Order {
+			c := n.Kids[k]
+			if c.Complete && !c.HasChild() && rng != nil && rng.Chance(1, 2) {
+				leaves = append(leaves, lit(k))
+				continue
+			}
+			for _, tl := range walk(c, elem, "") {
+				if _, ok := tails[tl]; !ok {
+					tailOrder = append(tailOrder, tl)
+				}
+				tails[tl] = append(tails[tl], lit(k))
+			}
 		}
+		for _, tl := range tailOrder {
+			ks := tails[tl]
+			if len(ks) > 1 && rng != nil && rng.Chance(2, 3) {
+				out = append(out, prefix+open+strings.Join(ks, ",")+close+tl)
+				continue
+			}
+			for _, k := range ks {
+				out = append(out, prefix+open+k+close+tl)
+			}
+		}
+		if len(leaves) > 0 {
+			out = append(out, prefix+open+strings.Join(leaves, ",")+close)
+		}
+		return out
+	}
+	walk = func(n *Node, t *idl.Type, prefix string) []string {
+		if n.Complete && !n.HasChild() {
+			return []string{prefix}
+		}
+		var out []string
 		r := t.Resolve()
 		switch idl.WireCat(r) {
 		case "struct":
 			if n.Star != nil {
-				walk(n.Star, r, prefix+".*")
-				return
+				return walk(n.Star, r, prefix+".*")
 			}
 			for _, k := range n.Order {
 				id, _ := strconv.Atoi(k)
@@ -399,51 +431,29 @@ func Render(rng *vlib.Rng, root *Node, t *idl.Type) []string {
 				if (rng != nil && rng.Chance(1, 3) || !pathName(f.Name)) && id >= 0 { // the path syntax has no negative ids
 					seg = "." + k
 				}
-				walk(n.Kids[k], f.Type, prefix+seg)
+				out = append(out, walk(n.Kids[k], f.Type, prefix+seg)...)
 			}
 		case "list", "set":
 			if n.Star != nil {
-				walk(n.Star, r.Elem, prefix+"[*]")
-				return
+				return walk(n.Star, r.Elem, prefix+"[*]")
 			}
-			var leaves []string
-			for _, k := range n.Order {
-				c := n.Kids[k]
-				if c.Complete && !c.HasChild() && rng != nil && rng.Chance(1, 2) {
-					leaves = append(leaves, k)
-					continue
-				}
-				walk(c, r.Elem, prefix+"["+k+"]")
-			}
-			if len(leaves) > 0 {
-				out = append(out, prefix+"["+strings.Join(leaves, ",")+"]")
-			}
+			out = keyed(n, r.Elem, prefix, "[", "]", func(k string) string { return k })
 		case "map":
 			if n.Star != nil {
-				walk(n.Star, r.Elem, prefix+"{*}")
-				return
+				return walk(n.Star, r.Elem, prefix+"{*}")
 			}
-			var leaves []string
-			for _, k := range n.Order {
-				c := n.Kids[k]
-				lit := k
+			out = keyed(n, r.Elem, prefix, "{", "}", func(k string) string {
 				if strings.HasPrefix(k, "s") {
-					lit = strconv.Quote(k[1:]) // the path syntax takes Go string literals
+					return strconv.Quote(k[1:]) // the path syntax takes Go string literals
 				}
-				if c.Complete && !c.HasChild() && rng != nil && rng.Chance(1, 2) {
-					leaves = append(leaves, lit)
-					continue
-				}
-				walk(c, r.Elem, prefix+"{"+lit+"}")
-			}
-			if len(leaves) > 0 {
-				out = append(out, prefix+"{"+strings.Join(leaves, ",")+"}")
-			}
+				return k
+			})
 		default:
 			out = append(out, prefix)
 		}
+		return out
 	}
-	walk(root, t, "$")
+	out := walk(root, t, "$")
 	sort.Strings(out)
 	return out
 }
